@@ -763,13 +763,6 @@ impl S3 for FileSystem {
 
         self.delete_upload_id(&upload_id).await?;
 
-        // the object takes the user metadata given when the upload was created, not those of an object it replaces
-        self.delete_object_side_files(&bucket, &key)?;
-        if let Ok(Some(metadata)) = self.load_metadata(&bucket, &key, Some(upload_id)).await {
-            self.save_metadata(&bucket, &key, &metadata, None).await?;
-            let _ = self.delete_metadata(&bucket, &key, Some(upload_id));
-        }
-
         let object_path = self.get_object_path(&bucket, &key)?;
         let mut file_writer = self.prepare_file_write(&object_path)?;
 
@@ -802,6 +795,14 @@ impl S3 for FileSystem {
             try_!(fs::remove_file(&part_path).await);
         }
         file_writer.done().await?;
+
+        // the object takes the user metadata given when the upload was created, not those of an object it replaces;
+        // a completion that was refused above leaves the object that is there as it is
+        self.delete_object_side_files(&bucket, &key)?;
+        if let Ok(Some(metadata)) = self.load_metadata(&bucket, &key, Some(upload_id)).await {
+            self.save_metadata(&bucket, &key, &metadata, None).await?;
+            let _ = self.delete_metadata(&bucket, &key, Some(upload_id));
+        }
 
         let file_size = try_!(fs::metadata(&object_path).await).len();
         let md5_sum = self.get_md5_sum(&bucket, &key).await?;
